@@ -90,7 +90,8 @@ CHECKS = {
         "inverted_mapping are mutated in mirrored adjacent pairs; yields "
         "and candidate sets are fresh; candidate filters have the right "
         "polarity and cover all covered neighbours; every call site passes "
-        "label dictionaries.",
+        "label dictionaries; when a pair is undone the removed atom is put "
+        "back into frontier / external on every path (R-REVERT-TOTAL).",
         "Not decided: exactness of the enumeration (no missing / duplicate "
         "mapping) as an algorithmic fact; group closure of the result.",
         "DESIGN.md 3/C05"),
@@ -175,7 +176,10 @@ CHECKS = {
         "(following helper delegation); reverse_reaction swaps FORMED/BROKEN "
         "through set_bond_attribute for bonds and inside both change "
         "dictionaries and has no exit that skips a swap loop unless the "
-        "skipped tables are empty (R-REVERSE-TOTAL); for all 89 (reactant, "
+        "skipped tables are empty (R-REVERSE-TOTAL), passes every stored role to "
+        "the keyword of the opposite side (table driven spreads are folded) "
+        "and has no write effect on the graph it is called on (R-DERIVE-PURE, "
+        "ownership interpreter); for all 89 (reactant, "
         "product, TS, bond role) descriptor scenarios overlay(static, "
         "broken) = reactant and overlay(static, formed) = product.",
         "Not decided: set equalities as values; reversing twice identical as "
@@ -249,7 +253,9 @@ CHECKS = {
         "comments disabled; at least 1-d result; strict upper triangle; "
         "symmetric cut-off table with a zero diagonal; strict <; 1.2 x sum "
         "of radii; complete radii table; distances from coordinate "
-        "differences only. The text written by xyz_str is evaluated as a "
+        "differences only; number text is never stripped with a character set "
+        "containing '0' and '.'; the reader never uses str.splitlines(). The "
+        "text written by xyz_str is evaluated as a "
         "template (header lines, one repeated atom line).",
         "Not decided: decimal round trip of floats; permutation "
         "equivariance as a value.",
@@ -263,7 +269,9 @@ CHECKS = {
         "lookups; no slot is ever an auto-creating container; add/remove "
         "atom/bond perform the paired updates that keep the three parallel "
         "containers in step; remove_atom resolved for each class purges "
-        "every descriptor-bearing slot under `atom in descriptor.atoms`; "
+        "every descriptor-bearing slot under `atom in descriptor.atoms`, "
+        "remove_bond purges every bond-keyed stereo slot (R-PURGE-BOND, "
+        "defect F44 repaired by fix aebc8a9); "
         "descriptors are stored under their own centre; the lookup hooks of "
         "mapping subclasses never store; in-place relabelling renames "
         "totally (rules of C11).",
